@@ -129,6 +129,17 @@ def build_checker(timeout=1200):
     rc, out = sh(["coqc", "-Q", COQ, "BB", os.path.join(COQ, "Extract", "Extract.v")], cwd=gen, timeout=timeout)
     if rc != 0:
         return False, out
+    # adapters that are present but not (yet) registered in main.ml are left out of the build
+    main_src = open(os.path.join(CHECKER, "main.ml")).read()
+    skip = []
+    for f in sorted(glob.glob(os.path.join(CHECKER, "ad_*.ml"))):
+        mod = os.path.basename(f)[:-3]
+        if (mod[0].upper() + mod[1:] + ".init") not in main_src:
+            skip.append(mod)
+    dune = "(copy_files gen/*.ml)\n(copy_files gen/*.mli)\n(executable\n (name main)\n (modules :standard%s)\n (flags (:standard -w -a)))\n" % (
+        (" \\ " + " ".join(skip)) if skip else "")
+    if open(os.path.join(CHECKER, "dune")).read() != dune:
+        open(os.path.join(CHECKER, "dune"), "w").write(dune)
     rc, out2 = sh(["dune", "build", "--root", ".", "./main.exe"], cwd=CHECKER, timeout=timeout)
     return rc == 0, out + out2
 
@@ -160,12 +171,17 @@ def build_tools(timeout=600):
             return False, log_all
     return True, log_all
 
+def harness_files():
+    """In-package harness files that are integrated (harness/inpkg/FILES); others in the directory are work in progress."""
+    d = os.path.join(HARNESS, "inpkg")
+    return [os.path.join(d, l.strip()) for l in open(os.path.join(d, "FILES")) if l.strip() and not l.startswith("#")]
+
 def repo_go_files():
     return sorted(f for f in glob.glob(os.path.join(REPO, "*.go")))
 
 def tree_hash(extra=()):
     h = hashlib.sha256()
-    for f in repo_go_files() + [os.path.join(REPO, "go.mod")] + sorted(glob.glob(os.path.join(HARNESS, "inpkg", "*.go"))) + list(extra):
+    for f in repo_go_files() + [os.path.join(REPO, "go.mod")] + harness_files() + list(extra):
         h.update(f.encode()); h.update(b"\0")
         try:
             h.update(open(f, "rb").read())
@@ -202,7 +218,7 @@ def build_harness(race=False, instrument=False, timeout=900):
             return None, "instrumenter failed:\n" + out
         for f in glob.glob(os.path.join(idir, "*.go")):
             replace[os.path.join(REPO, os.path.basename(f))] = f
-    for f in sorted(glob.glob(os.path.join(HARNESS, "inpkg", "*.go"))):
+    for f in harness_files():
         replace[os.path.join(REPO, "zz_verif_" + os.path.basename(f)[:-3] + "_test.go")] = f
     ov = os.path.join(d, "overlay.json")
     json.dump({"Replace": replace}, open(ov, "w"))
